@@ -67,3 +67,16 @@ package remote
 //@   ensures [reserve_recorded] m.reserve == max(int32(int32(max) * GlobalMaxInflightBurstPercent) / 100, GlobalMaxInflightBurstMinInflight)
 //@   ensures [outage_keeps_local] old(m.serverUnavailable) != 0 ==> fcsize == old(fcsize) && result
 //@   ensures [healthy_resizes] old(m.serverUnavailable) == 0 ==> fcsize[m.FlowControl] == uint32(m.reserve)
+
+//@ func NewFlowControlCache props C11
+//@   trusted "constructor of a per-schema cache (starts its meter); touches no existing object"
+//@   modifies nothing
+//@   ensures result != nil && !old(result in fccstopped)
+
+//@ func (*FlowControlMap).Delete props C11
+//@   requires [typed] forall k ref :: {smhas(&f.data, k)} smhas(&f.data, k) ==> typeis(k, "string") && smget(&f.data, k) != nil
+//@   modifies smap(&f.data)[box(name)], fccstopped
+//@   ensures [removed] !smhas(&f.data, box(name))
+//@   ensures [stopped] old(smhas(&f.data, box(name))) ==> (old(smget(&f.data, box(name))) in fccstopped)
+//@   ensures [stops_only_it] forall x ref :: {x in fccstopped} (x in fccstopped) && !old(x in fccstopped) ==> old(smhas(&f.data, box(name))) && x == old(smget(&f.data, box(name)))
+//@   ensures [stop_monotone] forall x ref :: {x in fccstopped} old(x in fccstopped) ==> (x in fccstopped)
